@@ -8,7 +8,9 @@ def spec(th, seed):
     units = [U('C10_matrix.plain', SRC, 'plain', libs=LIBS),
              # aligned_highp: SSE specialisations of float mat4 determinant / inverse (glm_mat4_inverse), the aligned inv3x3 path and
              # the SIMD mat*vec / mat*mat products used by operator/; double has no SIMD matrix code below AVX, so only the float ops run
-             U('C10_matrix.simd-sse42', SRC, 'plain', defs=['-msse4.2'] + SIMD, args=['--only', '_f'], scale=0.3, libs=LIBS)]
+             U('C10_matrix.simd-sse42', SRC, 'plain', defs=['-msse4.2'] + SIMD, args=['--only', '_f'], scale=0.3, libs=LIBS),
+             # AVX level (glm's AVX paths need -mfma): code selected by GLM_ARCH_AVX_BIT, e.g. in glm_mat4_inverse
+             U('C10_matrix.simd-avx2', SRC, 'plain', defs=['-mavx2', '-mfma'] + SIMD, args=['--only', '_f'], scale=0.3, libs=LIBS)]
     if th:
         units.append(U('C10_matrix.simd-sse2', SRC, 'plain', defs=['-msse2'] + SIMD, args=['--only', '_f'], scale=0.1, libs=LIBS))
         units.append(U('C10_matrix.clang', SRC, 'clang', scale=0.1, libs=LIBS))
